@@ -1,18 +1,50 @@
 """
 Regenerates lean/PedalModel/Gen/ProxyPlans.lean from pedal/sandbox/result.py of the tree under test.
 
-Every method of `SandboxResult` whose name is one of the dunders of the C16 families is read from the AST into a
-forwarding `Plan` (PedalModel/Proxy.lean): which expression it evaluates on the unwrapped operand(s) (the Python
-operator itself / a dunder called by hand / a builtin), an optional fallback taken when that gave NotImplemented,
-whether it prints, whether the result is wrapped again, whether a proxied other operand is unwrapped.  A body the
-translator does not recognise becomes `PlanEntry.opaque` (the theorems then fail); a dunder that is not defined at
-all is simply absent from the table (the protocol model then does what CPython does without it).
-Also read: the `__class__` spoof in `__getattribute__`, whether `__pow__` forwards its modulus, and whether the
-module-level replacement `len` delegates to the saved builtin.
+Every method of `SandboxResult` whose name is one of the dunders of the C16 families becomes a forwarding `Plan`
+(PedalModel/Proxy.lean): which expression it evaluates on the unwrapped operand(s) (the Python operator itself / a
+dunder called by hand / a builtin), an optional fallback taken when that gave NotImplemented, whether it prints,
+whether the result is wrapped again, whether a proxied other operand is unwrapped.  The plan is derived from what the
+method DOES, from two independent sources that must agree:
+
+READING (primary).  The method body is EXECUTED SYMBOLICALLY, path by path, by a small interpreter for the Python
+subset such code is written in (`Reader`): the receiver is a proxy of an unknown value S, the other operand an
+unknown plain value O in one scenario and a proxy of O in a second one, optional further parameters (`*modulo`,
+`*ndigits`, `format_spec`) absent / present (the modulus plain and proxied).  Locals, tuple unpacking, early returns,
+if/else, `not`/`and`/`or`, conditional expressions, for-loops and comprehensions over argument tuples, list building,
+lambdas, nested functions and calls of private helpers - module-level functions and methods of the class, inlined
+with their arguments bound - are followed; `isinstance(x, SandboxResult)`, `hasattr(x, "__actual_class__")`,
+`x.__actual_class__ == SandboxResult`, `type(x)` are decided from what x IS in the scenario; a condition the reader
+cannot decide (a test on the student's value) forks the path and BOTH branches are followed.  Every operation applied
+to an unknown value (operator, dunder call, builtin, `operator.*`, `math.*`, subscript, `in`, `print`) is recorded as
+an effect.  A scenario's paths must all end in the same effect list and the same return value (the only accepted
+difference: the `result is/== NotImplemented` retry of a by-hand dispatch, which becomes the plan's fallback); the
+scenarios must describe ONE expression over (self value, other value) - then that is the plan, `unwrapOther` says
+whether the proxied other operand reached the operation unwrapped, `wrap` whether what is returned is a fresh
+SandboxResult of the operation's result.  What attribute access on a proxy means (`.value`, `._actual_value`,
+`.__actual_class__`, `.__class__`, which methods are reachable through `__getattribute__`, the constructor) is
+MEASURED on the real class (proxy_probe.measure_semantics), never assumed from names.
+Three outcomes: a plan; `not a forwarding plan` (the reader followed the code and it does something a plan cannot
+express: different operations on different paths / scenarios, the proxy itself used as operand, two operations,
+nothing returned ...) - definite, the entry is `opaque`; or `cannot follow` (a construct outside the subset).
+
+MEASUREMENT (cross-check and fallback).  harness/proxy_probe.py calls the real method on instrumented operands that
+log every dunder applied to them, in modes accept / decline / raise / subclass-first / missing-dunder, other operand
+plain and proxied, and compares all observations with a Python rendering of the Lean `runPlan` of a plan.
+
+COMBINATION, per method: reading = plan P and the measurement is identical to P -> P.  Reading = P but the
+measurement differs -> `opaque` (never guess).  Reading = not a forwarding plan -> `opaque`.  Reading cannot follow
+-> the plan space is searched for the plan the measurement is identical to; exactly one -> that plan (noted
+"probed"); none or several -> `opaque`.  The same rule gives `spoofsClass` (reading: `__getattribute__` run
+symbolically for the name "__class__"), `powForwardsModulo` (the modulus scenarios of `__pow__`) and
+`lenFnDelegates` (the module-level replacement `len` run on a plain value); an unestablished flag is `false`, which
+makes the Lean obligation fail.  A dunder that is not defined at all is simply absent from the table (the protocol
+model then does what CPython does without it).
 """
 import ast
 import hashlib
 import math
+import operator as _operator
 import os
 
 from common import LEAN_DIR, REPO, write_if_changed
@@ -37,266 +69,1260 @@ AST_BINOP = {ast.Add: "add", ast.Sub: "sub", ast.Mult: "mul", ast.MatMult: "matm
 AST_CMP = {ast.Lt: "lt", ast.LtE: "le", ast.Gt: "gt", ast.GtE: "ge", ast.Eq: "eq", ast.NotEq: "ne"}
 AST_UNARY = {ast.USub: "neg", ast.UAdd: "pos", ast.Invert: "invert"}
 BUILTIN_CONV = {"repr": "repr", "str": "str", "hash": "hash", "bool": "bool", "int": "int", "float": "float",
-                "complex": "complex", "_original_len": "len", "iter": "iter", "reversed": "reversed", "abs": "abs",
+                "complex": "complex", "len": "len", "iter": "iter", "reversed": "reversed", "abs": "abs",
                 "format": "format", "round": "round"}
 MATH_CONV = {"trunc": "trunc", "floor": "floor", "ceil": "ceil"}
+OPERATOR_INFIX = {"add": "add", "sub": "sub", "mul": "mul", "matmul": "matmul", "truediv": "truediv",
+                  "floordiv": "floordiv", "mod": "mod", "pow": "pow", "lshift": "lshift", "rshift": "rshift",
+                  "and_": "and_", "xor": "xor", "or_": "or_", "lt": "lt", "le": "le", "gt": "gt", "ge": "ge",
+                  "eq": "eq", "ne": "ne"}
+OPERATOR_CONV = {"neg": "neg", "pos": "pos", "invert": "invert", "inv": "invert", "abs": "abs", "index": "index",
+                 "truth": "bool"}
+BINARY_LEAN = ("add radd sub rsub mul rmul matmul rmatmul truediv rtruediv floordiv rfloordiv mod rmod divmod rdivmod "
+               "pow rpow lshift rlshift rshift rrshift and_ rand xor rxor or_ ror lt le gt ge eq ne").split()
+BINARY_DUNDERS = [d for d in DUNDERS if DUNDERS[d] in BINARY_LEAN]
+CLASS_NAME = "SandboxResult"
+MAX_DEPTH = 10
+MAX_PATHS = 256
 
 
 class Unknown(Exception):
-    pass
+    """the reading cannot follow the code"""
 
 
-def is_name(node, name):
-    return isinstance(node, ast.Name) and node.id == name
+class Definite(Exception):
+    """the reading followed the code: it is not a forwarding plan"""
 
 
-def is_self_value(node):
-    return isinstance(node, ast.Attribute) and node.attr == "value" and is_name(node.value, "self")
+# ----------------------------------------------------------------------------------------------------------
+# symbolic values
+
+class V:
+    __slots__ = ()
+
+    def _key(self):
+        return (type(self).__name__,) + tuple(getattr(self, s) for s in self.__slots__)
+
+    def __eq__(self, other):
+        return type(other) is type(self) and self._key() == other._key()
+
+    def __ne__(self, other):
+        return not self == other
+
+    def __hash__(self):
+        return hash(self._key())
+
+    def __repr__(self):
+        return "%s(%s)" % (type(self).__name__, ", ".join(repr(getattr(self, s)) for s in self.__slots__))
 
 
-def clone_arg(node):
-    """`self._clone_this_result(X)` -> X, else None"""
-    if (isinstance(node, ast.Call) and isinstance(node.func, ast.Attribute) and node.func.attr == "_clone_this_result"
-            and is_name(node.func.value, "self") and len(node.args) == 1 and not node.keywords):
-        return node.args[0]
+def _mk(name, fields):
+    fields = fields.split()
+
+    def init(self, *args):
+        assert len(args) == len(fields), (name, args)
+        for f, a in zip(fields, args):
+            object.__setattr__(self, f, a)
+    return type(name, (V,), {"__slots__": tuple(fields), "__init__": init})
+
+
+Atom = _mk("Atom", "tag")                 # an unknown value that is not a proxy: S (wrapped in self), O, K (further argument)
+Prox = _mk("Prox", "inner origin")        # a SandboxResult; origin: self | other | extra | new
+OpRes = _mk("OpRes", "idx")               # what effect number idx produced
+ClassOf = _mk("ClassOf", "of")            # the class of an unknown value
+Meta = _mk("Meta", "of which")            # context id / sandbox stored in a proxy
+Func = _mk("Func", "node closure")        # a function of the module under translation (closure: frozen env or None)
+Bound = _mk("Bound", "recv func")
+ValMethod = _mk("ValMethod", "recv name")  # `<unknown value>.<name>`
+Builtin = _mk("Builtin", "name")
+Module = _mk("Module", "name")
+ListV = _mk("ListV", "items")             # a list built by the code (items: tuple)
+CondV = _mk("CondV", "key neg")           # an undecided boolean
+Opaque = _mk("Opaque", "why")
+ClassSR = _mk("ClassSR", "")
+NotImpl = _mk("NotImpl", "")
+CLASS_SR = ClassSR()
+NI = NotImpl()
+SYMBOLIC = (Atom, Prox, OpRes)
+
+
+class St:
+    """One path: the effects so far and the undecided conditions taken."""
+    __slots__ = ("effects", "conds")
+
+    def __init__(self, effects=(), conds=()):
+        self.effects = effects
+        self.conds = conds
+
+    def effect(self, e):
+        for x in e:
+            check_operand(x)
+        return OpRes(len(self.effects)), St(self.effects + (e,), self.conds)
+
+    def decide(self, key):
+        for k, b in self.conds:
+            if k == key:
+                return [(b, self)]
+        return [(True, St(self.effects, self.conds + ((key, True),))),
+                (False, St(self.effects, self.conds + ((key, False),)))]
+
+
+def check_operand(x):
+    if isinstance(x, Opaque):
+        raise Unknown("operand is %s" % x.why)
+    if isinstance(x, (CondV, Func, Bound, ValMethod, Builtin, Module, ClassOf, Meta, ClassSR)):
+        raise Unknown("operand %r" % (x,))
+    if isinstance(x, tuple):
+        for y in x:
+            check_operand(y)
+
+
+RET, FALL = "ret", "fall"
+PY_BUILTINS = ("isinstance hasattr getattr type print divmod pow tuple list object issubclass callable "
+               + " ".join(BUILTIN_CONV)).split()
+
+
+class Reader:
+    def __init__(self, tree, sem):
+        self.sem = sem
+        self.genv = {}
+        self.cls = None
+        self.methods = {}          # name -> Func, as CPython finds them on SandboxResult (own body, then bases)
+        self.unread = {}           # name -> why the class-level definition could not be followed
+        self.defined = []          # names bound in the class bodies, in order
+        self.class_consts = {}
+        self.module_classes = {}
+        self.paths = 0
+        for node in tree.body:
+            self._module_stmt(node)
+        if self.cls is not None:
+            self._collect_class(self.cls, set())
+
+    # ---- module level ------------------------------------------------------------------------------------
+    def _module_stmt(self, node):
+        if isinstance(node, (ast.Import, ast.ImportFrom)):
+            for a in node.names:
+                name = (a.asname or a.name).split(".")[0]
+                if isinstance(node, ast.Import) and a.name in ("math", "operator", "functools"):
+                    self.genv[name] = Module(a.name)
+                elif isinstance(node, ast.ImportFrom) and node.module in ("math", "operator", "functools"):
+                    self.genv[name] = self._module_attr(Module(node.module), a.name)
+                else:
+                    self.genv[name] = Opaque("imported name %s" % name)
+        elif isinstance(node, ast.FunctionDef):
+            self.genv[node.name] = Func(node, None)
+        elif isinstance(node, ast.ClassDef):
+            self.module_classes[node.name] = node
+            if node.name == CLASS_NAME:
+                self.cls = node
+                self.genv[node.name] = CLASS_SR
+            else:
+                self.genv[node.name] = Opaque("class %s" % node.name)
+        elif isinstance(node, ast.Assign) and len(node.targets) == 1 and isinstance(node.targets[0], ast.Name):
+            v = node.value
+            if isinstance(v, ast.Name):
+                self.genv[node.targets[0].id] = self._global(v.id)
+            else:
+                try:
+                    self.genv[node.targets[0].id] = self._const(ast.literal_eval(v))
+                except (ValueError, SyntaxError):
+                    self.genv[node.targets[0].id] = Opaque("module variable %s" % node.targets[0].id)
+
+    def _collect_class(self, node, seen):
+        """Bind the class-level names of SandboxResult: base classes of the module first (right to left), then the
+        own body; `def`s (with their decorators applied), `name = <expression>` (aliases, functions made by a
+        factory, lambdas, constants)."""
+        if node.name in seen:
+            return
+        seen.add(node.name)
+        for b in reversed(node.bases):
+            if isinstance(b, ast.Name) and b.id in self.module_classes:
+                self._collect_class(self.module_classes[b.id], seen)
+            elif not (isinstance(b, ast.Name) and b.id == "object"):
+                self.unread["<bases>"] = "base class %s" % ast.dump(b)[:40]
+        cenv = {}
+        for n in node.body:
+            names = []
+            try:
+                if isinstance(n, ast.FunctionDef):
+                    names = [n.name]
+                    val = self.make_function(n, cenv, None, 0)
+                elif isinstance(n, ast.Assign) and all(isinstance(t, ast.Name) for t in n.targets):
+                    names = [t.id for t in n.targets]
+                    try:
+                        val = self._const(ast.literal_eval(n.value))
+                    except (ValueError, SyntaxError):
+                        got = list(self.ev(n.value, cenv, St(), 0))
+                        if len(got) != 1 or got[0][1].effects:
+                            raise Unknown("class-level expression")
+                        val = got[0][0]
+                elif isinstance(n, (ast.Expr, ast.Pass)):
+                    continue
+                else:
+                    for sub in ast.walk(n):
+                        if isinstance(sub, ast.Name) and isinstance(sub.ctx, ast.Store):
+                            names.append(sub.id)
+                    raise Unknown("class-level %s" % type(n).__name__)
+            except (Unknown, Definite, RecursionError) as e:
+                for name in names:
+                    self.unread[name] = str(e) or "recursion"
+                    self.methods.pop(name, None)
+                    cenv.pop(name, None)
+                    if name not in self.defined:
+                        self.defined.append(name)
+                continue
+            for name in names:
+                cenv[name] = val
+                self.unread.pop(name, None)
+                if name not in self.defined:
+                    self.defined.append(name)
+                if isinstance(val, Func):
+                    self.methods[name] = val
+                else:
+                    self.methods.pop(name, None)
+                    if isinstance(val, Opaque):
+                        self.unread[name] = val.why
+                    else:
+                        self.class_consts[name] = val
+
+    def make_function(self, node, env, closure, depth):
+        """A `def` with its decorators applied (bottom up)."""
+        f = Func(node, closure)
+        for dec in reversed(node.decorator_list):
+            got = list(self.ev(dec, env, St(), depth))
+            if len(got) != 1 or got[0][1].effects:
+                raise Unknown("decorator")
+            applied = list(self.apply(got[0][0], [f], {}, St(), depth))
+            if len(applied) != 1 or applied[0][1].effects or not isinstance(applied[0][0], Func):
+                raise Unknown("decorator result")
+            f = applied[0][0]
+        return f
+
+    def _const(self, x):
+        if isinstance(x, list):
+            return ListV(tuple(self._const(y) for y in x))
+        if isinstance(x, tuple):
+            return tuple(self._const(y) for y in x)
+        if x is None or isinstance(x, (bool, int, float, str, complex, bytes)):
+            return x
+        return Opaque("constant")
+
+    def _global(self, name):
+        if name in self.genv:
+            return self.genv[name]
+        if name == "NotImplemented":
+            return NI
+        if name in PY_BUILTINS or name in ("str", "int", "float", "bool", "complex", "dict", "set", "bytes",
+                                           "staticmethod"):
+            return Builtin(name)
+        return Opaque("name %s" % name)
+
+    def _module_attr(self, mod, attr):
+        if mod.name == "math":
+            if not hasattr(math, attr):
+                return Builtin("missing:math." + attr)
+            if attr in MATH_CONV:
+                return Builtin("math." + attr)
+        if mod.name == "operator":
+            if attr in OPERATOR_INFIX or attr in OPERATOR_CONV or attr in ("getitem", "contains"):
+                return Builtin("operator." + attr)
+        if mod.name == "functools" and attr == "wraps":
+            return Builtin("functools.wraps")
+        return Opaque("%s.%s" % (mod.name, attr))
+
+    # ---- expressions ---------------------------------------------------------------------------------------
+    def ev(self, n, env, st, depth):
+        """yield (value, st) for every way the expression can evaluate"""
+        if isinstance(n, ast.Constant):
+            yield n.value, st
+        elif isinstance(n, ast.Name):
+            yield (env[n.id] if n.id in env else self._global(n.id)), st
+        elif isinstance(n, ast.Attribute):
+            for base, st1 in self.ev(n.value, env, st, depth):
+                yield self.attr(base, n.attr), st1
+        elif isinstance(n, ast.Call):
+            yield from self.ev_call(n, env, st, depth)
+        elif isinstance(n, ast.BinOp):
+            if type(n.op) not in AST_BINOP:
+                raise Unknown("operator")
+            for l, st1 in self.ev(n.left, env, st, depth):
+                for r, st2 in self.ev(n.right, env, st1, depth):
+                    yield self.infix(AST_BINOP[type(n.op)], l, r, st2)
+        elif isinstance(n, ast.UnaryOp):
+            for v, st1 in self.ev(n.operand, env, st, depth):
+                if isinstance(n.op, ast.Not):
+                    yield self.negate(v, st1)
+                elif isinstance(v, SYMBOLIC):
+                    yield st1.effect(("builtin", AST_UNARY[type(n.op)], v, ()))
+                elif isinstance(v, (int, float)) and not isinstance(v, bool):
+                    yield {ast.USub: -v, ast.UAdd: +v}.get(type(n.op), Opaque("~const")), st1
+                else:
+                    raise Unknown("unary operator on %r" % (v,))
+        elif isinstance(n, ast.Compare):
+            if len(n.ops) != 1:
+                raise Unknown("chained comparison")
+            for l, st1 in self.ev(n.left, env, st, depth):
+                for r, st2 in self.ev(n.comparators[0], env, st1, depth):
+                    yield self.compare(n.ops[0], l, r, st2)
+        elif isinstance(n, ast.BoolOp):
+            yield from self.ev_boolop(isinstance(n.op, ast.And), n.values, env, st, depth)
+        elif isinstance(n, ast.IfExp):
+            for c, st1 in self.ev(n.test, env, st, depth):
+                for b, st2 in self.truth(c, st1):
+                    yield from self.ev(n.body if b else n.orelse, env, st2, depth)
+        elif isinstance(n, (ast.Tuple, ast.List)):
+            for items, st1 in self.ev_seq(n.elts, env, st, depth):
+                yield (tuple(items) if isinstance(n, ast.Tuple) else ListV(tuple(items))), st1
+        elif isinstance(n, ast.Subscript):
+            for base, st1 in self.ev(n.value, env, st, depth):
+                if isinstance(n.slice, ast.Slice):
+                    raise Unknown("slice")
+                for idx, st2 in self.ev(n.slice, env, st1, depth):
+                    yield self.subscript(base, idx, st2)
+        elif isinstance(n, (ast.ListComp, ast.GeneratorExp)):
+            yield from self.ev_comp(n, env, st, depth)
+        elif isinstance(n, ast.Lambda):
+            yield Func(n, freeze(env)), st
+        elif isinstance(n, ast.Starred):
+            raise Unknown("starred expression here")
+        else:
+            raise Unknown("expression %s" % type(n).__name__)
+
+    def ev_seq(self, nodes, env, st, depth):
+        """evaluate a list of expressions left to right (Starred ones are spliced in)"""
+        if not nodes:
+            yield [], st
+            return
+        head, rest = nodes[0], nodes[1:]
+        if isinstance(head, ast.Starred):
+            for v, st1 in self.ev(head.value, env, st, depth):
+                items = self.as_items(v)
+                for more, st2 in self.ev_seq(rest, env, st1, depth):
+                    yield items + more, st2
+        else:
+            for v, st1 in self.ev(head, env, st, depth):
+                for more, st2 in self.ev_seq(rest, env, st1, depth):
+                    yield [v] + more, st2
+
+    def as_items(self, v):
+        if isinstance(v, tuple):
+            return list(v)
+        if isinstance(v, ListV):
+            return list(v.items)
+        raise Unknown("iteration over %r" % (v,))
+
+    def ev_boolop(self, is_and, values, env, st, depth):
+        head, rest = values[0], values[1:]
+        for v, st1 in self.ev(head, env, st, depth):
+            if not rest:
+                yield v, st1
+                continue
+            for b, st2 in self.truth(v, st1):
+                if b != is_and:
+                    yield (v if not isinstance(v, CondV) else b), st2      # short circuit
+                else:
+                    yield from self.ev_boolop(is_and, rest, env, st2, depth)
+
+    def ev_comp(self, n, env, st, depth):
+        if len(n.generators) != 1 or n.generators[0].is_async:
+            raise Unknown("comprehension")
+        g = n.generators[0]
+        for seq, st1 in self.ev(g.iter, env, st, depth):
+            items = self.as_items(seq)
+
+            def go(i, acc, stx):
+                if i == len(items):
+                    yield acc, stx
+                    return
+                env2 = dict(env)
+                self.bind(g.target, items[i], env2)
+                yield from self.filtered(g.ifs, env2, stx, depth, lambda sty: self.ev(n.elt, env2, sty, depth),
+                                         lambda v, sty: go(i + 1, acc + [v], sty), lambda sty: go(i + 1, acc, sty))
+            for acc, st2 in go(0, [], st1):
+                yield ListV(tuple(acc)), st2
+
+    def filtered(self, ifs, env, st, depth, produce, then, skip):
+        if not ifs:
+            for v, st1 in produce(st):
+                yield from then(v, st1)
+            return
+        for c, st1 in self.ev(ifs[0], env, st, depth):
+            for b, st2 in self.truth(c, st1):
+                if b:
+                    yield from self.filtered(ifs[1:], env, st2, depth, produce, then, skip)
+                else:
+                    yield from skip(st2)
+
+    def negate(self, v, st):
+        """`not v` -> (value, st); the truth of an unknown value is the `bool` operation applied to it"""
+        if isinstance(v, CondV):
+            return CondV(v.key, not v.neg), st
+        if isinstance(v, (Atom, OpRes)):
+            r, st1 = st.effect(("builtin", "bool", v, ()))
+            return CondV(("truth", r), True), st1
+        if isinstance(v, ListV):
+            return (not v.items), st
+        if isinstance(v, NotImpl):
+            return False, st
+        if isinstance(v, V):
+            raise Unknown("not %r" % (v,))
+        return (not v), st
+
+    def truth(self, v, st):
+        """[(bool, st)]"""
+        if isinstance(v, CondV):
+            return [(b != v.neg, s) for b, s in st.decide(v.key)]
+        if isinstance(v, (Atom, OpRes)):
+            r, st1 = st.effect(("builtin", "bool", v, ()))
+            return st1.decide(("truth", r))
+        if isinstance(v, ListV):
+            return [(bool(v.items), st)]
+        if isinstance(v, NotImpl):
+            return [(True, st)]
+        if isinstance(v, V):
+            raise Unknown("truth of %r" % (v,))
+        return [(bool(v), st)]
+
+    def infix(self, op, l, r, st):
+        if isinstance(l, SYMBOLIC) or isinstance(r, SYMBOLIC):
+            return st.effect(("infix", op, l, r))
+        if op == "add" and isinstance(l, ListV) and isinstance(r, ListV):
+            return ListV(l.items + r.items), st
+        if op == "add" and isinstance(l, tuple) and isinstance(r, tuple):
+            return l + r, st
+        if not isinstance(l, V) and not isinstance(r, V) and not isinstance(l, tuple) and not isinstance(r, tuple):
+            try:
+                if op == "divmod":
+                    raise Unknown("constant expression")
+                return getattr(_operator, op)(l, r), st
+            except Exception:       # noqa
+                raise Unknown("constant expression")
+        raise Unknown("operator %s on %r, %r" % (op, l, r))
+
+    def compare(self, opnode, l, r, st):
+        t = type(opnode)
+        if t in (ast.Is, ast.IsNot, ast.Eq, ast.NotEq):
+            neg = t in (ast.IsNot, ast.NotEq)
+            for a, b in ((l, r), (r, l)):
+                # identity / equality with NotImplemented, None, or between classes: a test, not an operation
+                if isinstance(b, NotImpl) or (b is None and t in (ast.Is, ast.IsNot)):
+                    kind = "isNI" if isinstance(b, NotImpl) else "isNone"
+                    if isinstance(a, Atom) and a.tag == "K" and kind == "isNone":
+                        return neg, st      # a further argument that was given (its absence is a scenario of its own)
+                    if isinstance(a, (Atom, OpRes)):
+                        return CondV((kind, a), neg), st
+                    if isinstance(a, Prox):
+                        if t in (ast.Eq, ast.NotEq):
+                            break       # == on a proxy is its __eq__
+                        return neg, st
+                    if isinstance(a, Opaque):
+                        raise Unknown("test on %s" % a.why)
+                    same = isinstance(a, NotImpl) if kind == "isNI" else a is None
+                    return same != neg, st
+            classes = (ClassSR, ClassOf, Builtin)
+            if isinstance(l, classes) and isinstance(r, classes):
+                if isinstance(l, ClassSR) and isinstance(r, ClassSR):
+                    return not neg, st
+                if isinstance(l, ClassSR) or isinstance(r, ClassSR):
+                    return neg, st          # an unwrapped value's class is not SandboxResult
+                if l == r:
+                    return not neg, st
+                return CondV(("class-eq", l, r), neg), st
+        if t in AST_CMP and (isinstance(l, SYMBOLIC) or isinstance(r, SYMBOLIC)):
+            return st.effect(("infix", AST_CMP[t], l, r))
+        if t in (ast.In, ast.NotIn):
+            if isinstance(r, (Atom, OpRes, Prox)):
+                if t is ast.NotIn:
+                    raise Unknown("not in")
+                return st.effect(("isIn", l, r))
+            if isinstance(r, (ListV, tuple)) and not isinstance(l, V):
+                items = r.items if isinstance(r, ListV) else r
+                if all(not isinstance(x, V) for x in items):
+                    return (l in items) != (t is ast.NotIn), st
+            if isinstance(r, str) and isinstance(l, str):
+                return (l in r) != (t is ast.NotIn), st
+            raise Unknown("membership test")
+        if not isinstance(l, (V, tuple)) and not isinstance(r, (V, tuple)):
+            try:
+                fn = {ast.Eq: _operator.eq, ast.NotEq: _operator.ne, ast.Lt: _operator.lt, ast.LtE: _operator.le,
+                      ast.Gt: _operator.gt, ast.GtE: _operator.ge, ast.Is: _operator.is_, ast.IsNot: _operator.is_not}[t]
+                return fn(l, r), st
+            except Exception:       # noqa
+                raise Unknown("constant comparison")
+        if t in (ast.Eq, ast.NotEq) and isinstance(l, (tuple, ListV)) and isinstance(r, (tuple, ListV)):
+            li = l.items if isinstance(l, ListV) else l
+            ri = r.items if isinstance(r, ListV) else r
+            if type(l) is type(r) and len(li) != len(ri):
+                return t is ast.NotEq, st
+        raise Unknown("comparison of %r and %r" % (l, r))
+
+    def subscript(self, base, idx, st):
+        if isinstance(base, (tuple, ListV)):
+            items = base.items if isinstance(base, ListV) else base
+            if isinstance(idx, int) and not isinstance(idx, bool) and -len(items) <= idx < len(items):
+                return items[idx], st
+            raise Unknown("index into a built sequence")
+        if isinstance(base, SYMBOLIC):
+            return st.effect(("subscript", base, idx))
+        raise Unknown("subscript of %r" % (base,))
+
+    # ---- attributes ------------------------------------------------------------------------------------------
+    def attr(self, base, name):
+        sem = self.sem
+        if isinstance(base, Prox):
+            if name in sem["inner"]:
+                return base.inner
+            if name in sem["actual_class"]:
+                return CLASS_SR
+            if name == "__class__":
+                if sem["spoof"] is True:
+                    return ClassOf(base.inner)
+                if sem["spoof"] is False:
+                    return CLASS_SR
+                return Opaque("__class__ of a proxy")
+            if name in sem["meta"]:
+                return Meta(base, name)
+            if name in sem["methods"] and name in self.methods:
+                return Bound(base, self.methods[name])
+            return Opaque("attribute %s of a proxy" % name)
+        if isinstance(base, ClassSR):
+            if name in self.class_consts:
+                return self.class_consts[name]
+            if name in self.methods:
+                return self.methods[name]
+            return Opaque("class attribute %s" % name)
+        if isinstance(base, (Atom, OpRes)):
+            if name == "__class__":
+                return ClassOf(base)
+            if name in DUNDERS:
+                return ValMethod(base, name)
+            if name in sem.get("plain_lacks", ()):
+                return Opaque("attribute %s of a plain value (AttributeError)" % name)
+            return Opaque("attribute %s of a student value" % name)
+        if isinstance(base, Module):
+            return self._module_attr(base, name)
+        if isinstance(base, Builtin) and base.name == "object" and name in ("__getattribute__",):
+            return Builtin("object." + name)
+        if isinstance(base, ListV) and name == "append":
+            raise Unknown("list.append outside a statement")
+        return Opaque("attribute %s of %r" % (name, base))
+
+    def raw_attr(self, base, name):
+        """object.__getattribute__(base, name)"""
+        if isinstance(base, Prox):
+            if name == "value" and self.sem["raw_inner"]:
+                return base.inner
+            if name == "__class__":
+                return CLASS_SR
+            if name in ("_actual_context_id", "_actual_sandbox"):
+                return Meta(base, name)
+            if name in self.methods:
+                return Bound(base, self.methods[name])
+            if name in self.class_consts:
+                return self.class_consts[name]
+        return Opaque("raw attribute %s of %r" % (name, base))
+
+    # ---- calls -----------------------------------------------------------------------------------------------
+    def ev_call(self, n, env, st, depth):
+        if any(k.arg is None for k in n.keywords):
+            raise Unknown("**kwargs")
+        for f, st1 in self.ev(n.func, env, st, depth):
+            for args, st2 in self.ev_seq(list(n.args), env, st1, depth):
+                for kwvals, st3 in self.ev_seq([k.value for k in n.keywords], env, st2, depth):
+                    kwargs = dict(zip([k.arg for k in n.keywords], kwvals))
+                    yield from self.apply(f, args, kwargs, st3, depth)
+
+    def apply(self, f, args, kwargs, st, depth):
+        if isinstance(f, Bound):
+            yield from self.apply(f.func, [f.recv] + args, kwargs, st, depth)
+        elif isinstance(f, Func):
+            yield from self.call_func(f, args, kwargs, st, depth)
+        elif isinstance(f, ClassSR):
+            # constructing a proxy: the first argument is what it wraps (measured: sem["ctor"], sem["inner"])
+            if not self.sem["ctor"] or not self.sem["inner"]:
+                raise Unknown("constructor semantics not established")
+            val = args[0] if args else kwargs.get("value", Opaque("no value"))
+            if isinstance(val, Opaque):
+                raise Unknown("proxy of %s" % val.why)
+            for x in list(args[1:]) + [v for k, v in kwargs.items() if k != "value"]:
+                if isinstance(x, Opaque):
+                    raise Unknown("constructor argument %s" % x.why)
+            yield Prox(val, "new"), st
+        elif isinstance(f, ValMethod):
+            lean = DUNDERS[f.name]
+            if kwargs:
+                raise Unknown("keyword arguments to a dunder")
+            if f.name in BINARY_DUNDERS or f.name in ("__contains__", "__getitem__"):
+                if f.name == "__pow__" and len(args) == 2:
+                    if args[1] is None:
+                        yield st.effect(("method", lean, f.recv, args[0]))
+                        return
+                    raise Unknown("__pow__ by hand with a modulus")
+                if len(args) != 1:
+                    raise Unknown("arity of %s" % f.name)
+                yield st.effect(("method", lean, f.recv, args[0]))
+            else:
+                yield st.effect(("method1", lean, f.recv, tuple(args)))
+        elif isinstance(f, Builtin):
+            yield from self.call_builtin(f.name, args, kwargs, st)
+        elif isinstance(f, Opaque):
+            raise Unknown("call of %s" % f.why)
+        else:
+            raise Unknown("call of %r" % (f,))
+
+    def call_func(self, f, args, kwargs, st, depth):
+        if depth >= MAX_DEPTH:
+            raise Unknown("helper nesting too deep")
+        node = f.node
+        a = node.args
+        env = dict(f.closure) if f.closure else {}
+        params = [p.arg for p in a.posonlyargs + a.args]
+        defaults = [None] * (len(params) - len(a.defaults)) + list(a.defaults)
+        pos = list(args)
+        for name, d in zip(params, defaults):
+            if pos:
+                env[name] = pos.pop(0)
+            elif name in kwargs:
+                env[name] = kwargs.pop(name)
+            elif d is not None:
+                env[name] = self._default(d)
+            else:
+                raise Unknown("missing argument %s" % name)
+        if a.vararg:
+            env[a.vararg.arg] = tuple(pos)
+        elif pos:
+            raise Unknown("too many arguments")
+        for p, d in zip(a.kwonlyargs, a.kw_defaults):
+            if p.arg in kwargs:
+                env[p.arg] = kwargs.pop(p.arg)
+            elif d is not None:
+                env[p.arg] = self._default(d)
+            else:
+                raise Unknown("missing keyword argument")
+        if kwargs:
+            raise Unknown("unexpected keyword arguments")
+        if isinstance(node, ast.Lambda):
+            yield from self.ev(node.body, env, st, depth + 1)
+            return
+        if any(isinstance(x, (ast.Yield, ast.YieldFrom, ast.Await)) for x in ast.walk(node)):
+            raise Unknown("generator")
+        for sig, val, _env, st1 in self.run_block(node.body, env, st, depth + 1):
+            yield (val if sig == RET else None), st1
+
+    def _default(self, d):
+        try:
+            return self._const(ast.literal_eval(d))
+        except (ValueError, SyntaxError):
+            if isinstance(d, ast.Name):
+                return self._global(d.id)
+            return Opaque("default value")
+
+    def call_builtin(self, name, args, kwargs, st):
+        if kwargs and name != "print":
+            raise Unknown("keyword arguments to %s" % name)
+        if name == "print":
+            _, st1 = st.effect(("print",))
+            yield None, st1
+        elif name in ("staticmethod", "identity") and len(args) == 1:
+            yield args[0], st
+        elif name == "functools.wraps" and len(args) == 1:
+            yield Builtin("identity"), st
+        elif name == "isinstance" and len(args) == 2:
+            yield self.isinstance_(args[0], args[1]), st
+        elif name == "hasattr" and len(args) == 2 and isinstance(args[1], str):
+            yield self.hasattr_(args[0], args[1]), st
+        elif name == "getattr" and len(args) in (2, 3) and isinstance(args[1], str):
+            v = self.attr(args[0], args[1])
+            if isinstance(v, Opaque) and len(args) == 3:
+                if isinstance(args[0], Atom) and args[1] in self.sem.get("plain_lacks", ()):
+                    v = args[2]
+                else:
+                    raise Unknown("getattr with a default")
+            yield v, st
+        elif name == "object.__getattribute__" and len(args) == 2 and isinstance(args[1], str):
+            yield self.raw_attr(args[0], args[1]), st
+        elif name == "type" and len(args) == 1:
+            x = args[0]
+            if isinstance(x, Prox):
+                yield CLASS_SR, st
+            elif isinstance(x, (Atom, OpRes)):
+                yield ClassOf(x), st
+            else:
+                raise Unknown("type(%r)" % (x,))
+        elif name in ("tuple", "list") and len(args) <= 1:
+            items = self.as_items(args[0]) if args else []
+            yield (tuple(items) if name == "tuple" else ListV(tuple(items))), st
+        elif name == "len" and len(args) == 1 and isinstance(args[0], (tuple, ListV)):
+            yield len(self.as_items(args[0])), st
+        elif name == "bool" and len(args) == 1 and isinstance(args[0], (tuple, ListV, CondV, bool)):
+            v = args[0]
+            yield (bool(self.as_items(v)) if isinstance(v, (tuple, ListV)) else v), st
+        elif name in BUILTIN_CONV and args:
+            x, extra = args[0], tuple(args[1:])
+            if not isinstance(x, SYMBOLIC):
+                raise Unknown("%s(%r)" % (name, x))
+            if name not in ("format", "round") and extra:
+                raise Unknown("extra arguments to %s" % name)
+            yield st.effect(("builtin", BUILTIN_CONV[name], x, extra))
+        elif name == "divmod" and len(args) == 2:
+            yield st.effect(("infix", "divmod", args[0], args[1]))
+        elif name == "pow" and len(args) in (2, 3):
+            if len(args) == 2 or args[2] is None:
+                yield st.effect(("infix", "pow", args[0], args[1]))
+            else:
+                yield st.effect(("pow3", args[0], args[1], args[2]))
+        elif name.startswith("math.") and len(args) == 1:
+            if not isinstance(args[0], SYMBOLIC):
+                raise Unknown("math function on %r" % (args[0],))
+            yield st.effect(("builtin", MATH_CONV[name[5:]], args[0], ()))
+        elif name.startswith("missing:"):
+            yield st.effect(("missingName",))
+        elif name.startswith("operator."):
+            fn = name[9:]
+            if fn in OPERATOR_INFIX and len(args) == 2:
+                yield st.effect(("infix", OPERATOR_INFIX[fn], args[0], args[1]))
+            elif fn in OPERATOR_CONV and len(args) == 1:
+                yield st.effect(("builtin", OPERATOR_CONV[fn], args[0], ()))
+            elif fn == "getitem" and len(args) == 2:
+                yield self.subscript(args[0], args[1], st)
+            elif fn == "contains" and len(args) == 2:
+                yield st.effect(("isIn", args[1], args[0]))
+            else:
+                raise Unknown(name)
+        else:
+            raise Unknown("builtin %s/%d" % (name, len(args)))
+
+    def isinstance_(self, x, c):
+        if isinstance(c, tuple):
+            parts = [self.isinstance_(x, ci) for ci in c]
+            if any(p is True for p in parts):
+                return True
+            if all(p is False for p in parts):
+                return False
+            return CondV(("isinstance", x, c), False)
+        if isinstance(c, ClassSR):
+            # type(x) is checked first; the spoofed __class__ of a proxy is never SandboxResult's subclass
+            if isinstance(x, Prox):
+                return True
+            if isinstance(x, Atom) or not isinstance(x, V):
+                return False
+            if isinstance(x, (OpRes, ListV, NotImpl)):
+                return False if not isinstance(x, OpRes) else CondV(("isinstance", x, c), False)
+            raise Unknown("isinstance(%r, SandboxResult)" % (x,))
+        if isinstance(c, Builtin):
+            if isinstance(x, (Atom, OpRes, Prox)):
+                return CondV(("isinstance", x, c), False)
+            if not isinstance(x, V) and c.name in ("str", "int", "float", "bool", "complex", "tuple", "bytes"):
+                return isinstance(x, {"str": str, "int": int, "float": float, "bool": bool, "complex": complex,
+                                      "tuple": tuple, "bytes": bytes}[c.name])
+        raise Unknown("isinstance(%r, %r)" % (x, c))
+
+    def hasattr_(self, x, name):
+        sem = self.sem
+        if isinstance(x, Prox):
+            if (name in sem["inner"] or name in sem["actual_class"] or name in sem["meta"] or name == "__class__"
+                    or (name in sem["methods"] and name in self.methods)):
+                return True
+            return CondV(("hasattr", x, name), False)
+        if isinstance(x, (Atom, OpRes)):
+            if isinstance(x, Atom) and name in sem.get("plain_lacks", ()):
+                return False            # a plain student value is not a proxy (measured on plain objects)
+            return CondV(("hasattr", x, name), False)
+        raise Unknown("hasattr(%r)" % (x,))
+
+    # ---- statements ------------------------------------------------------------------------------------------
+    def bind(self, target, val, env):
+        if isinstance(target, ast.Name):
+            env[target.id] = val
+        elif isinstance(target, (ast.Tuple, ast.List)):
+            if any(isinstance(e, ast.Starred) for e in target.elts):
+                raise Unknown("starred assignment")
+            items = self.as_items(val)
+            if len(items) != len(target.elts):
+                raise Unknown("unpacking")
+            for e, x in zip(target.elts, items):
+                self.bind(e, x, env)
+        else:
+            raise Unknown("assignment target %s" % type(target).__name__)
+
+    def run_block(self, stmts, env, st, depth):
+        """yield (signal, value, env, st)"""
+        if not stmts:
+            yield FALL, None, env, st
+            return
+        head, rest = stmts[0], stmts[1:]
+        for sig, val, env1, st1 in self.run_stmt(head, env, st, depth):
+            if sig == FALL:
+                yield from self.run_block(rest, env1, st1, depth)
+            else:
+                yield sig, val, env1, st1
+
+    def run_stmt(self, s, env, st, depth):
+        self.paths += 1
+        if self.paths > MAX_PATHS * 40:
+            raise Unknown("too many paths")
+        if isinstance(s, ast.Expr):
+            v = s.value
+            if isinstance(v, ast.Constant):
+                yield FALL, None, env, st
+            elif (isinstance(v, ast.Call) and isinstance(v.func, ast.Attribute) and v.func.attr in ("append", "extend")
+                  and isinstance(v.func.value, ast.Name) and isinstance(env.get(v.func.value.id), ListV)
+                  and len(v.args) == 1 and not v.keywords):
+                lst = v.func.value.id
+                for x, st1 in self.ev(v.args[0], env, st, depth):
+                    env1 = dict(env)
+                    add = (x,) if v.func.attr == "append" else tuple(self.as_items(x))
+                    env1[lst] = ListV(env[lst].items + add)
+                    yield FALL, None, env1, st1
+            else:
+                for _, st1 in self.ev(v, env, st, depth):
+                    yield FALL, None, env, st1
+        elif isinstance(s, (ast.Assign, ast.AnnAssign)):
+            targets = s.targets if isinstance(s, ast.Assign) else [s.target]
+            if s.value is None:
+                yield FALL, None, env, st
+                return
+            for v, st1 in self.ev(s.value, env, st, depth):
+                env1 = dict(env)
+                for t in targets:
+                    self.bind(t, v, env1)
+                yield FALL, None, env1, st1
+        elif isinstance(s, ast.AugAssign):
+            if not (isinstance(s.target, ast.Name) and isinstance(s.op, ast.Add)
+                    and isinstance(env.get(s.target.id), (ListV, tuple))):
+                raise Unknown("augmented assignment")
+            cur = env[s.target.id]
+            for v, st1 in self.ev(s.value, env, st, depth):
+                env1 = dict(env)
+                items = tuple(self.as_items(cur)) + tuple(self.as_items(v))
+                env1[s.target.id] = ListV(items) if isinstance(cur, ListV) else items
+                yield FALL, None, env1, st1
+        elif isinstance(s, ast.Return):
+            if s.value is None:
+                yield RET, None, env, st
+            else:
+                for v, st1 in self.ev(s.value, env, st, depth):
+                    yield RET, v, env, st1
+        elif isinstance(s, ast.If):
+            for c, st1 in self.ev(s.test, env, st, depth):
+                for b, st2 in self.truth(c, st1):
+                    yield from self.run_block(s.body if b else s.orelse, dict(env), st2, depth)
+        elif isinstance(s, ast.For):
+            if s.orelse or any(isinstance(x, (ast.Break, ast.Continue)) for x in ast.walk(s)):
+                raise Unknown("loop with break/continue/else")
+            for seq, st1 in self.ev(s.iter, env, st, depth):
+                yield from self.run_loop(s, self.as_items(seq), dict(env), st1, depth)
+        elif isinstance(s, ast.Pass):
+            yield FALL, None, env, st
+        elif isinstance(s, ast.FunctionDef):
+            env1 = dict(env)
+            env1[s.name] = self.make_function(s, env, freeze(env), depth)
+            yield FALL, None, env1, st
+        elif isinstance(s, ast.Try) and not s.handlers and not s.orelse:
+            # try/finally: the body, then the final block on every path that did not raise
+            for sig, val, env1, st1 in self.run_block(s.body, dict(env), st, depth):
+                for sig2, val2, env2, st2 in self.run_block(s.finalbody, env1, st1, depth):
+                    if sig2 == FALL:
+                        yield sig, val, env2, st2
+                    else:
+                        yield sig2, val2, env2, st2
+        elif isinstance(s, ast.Raise):
+            raise Definite("a reachable `raise` statement")
+        else:
+            raise Unknown("statement %s" % type(s).__name__)
+
+    def run_loop(self, s, items, env, st, depth):
+        if not items:
+            yield FALL, None, env, st
+            return
+        env = dict(env)
+        self.bind(s.target, items[0], env)
+        for sig, val, env1, st1 in self.run_block(s.body, env, st, depth):
+            if sig == FALL:
+                yield from self.run_loop(s, items[1:], env1, st1, depth)
+            else:
+                yield sig, val, env1, st1
+
+    # ---- running one function in one scenario ----------------------------------------------------------------
+    def run(self, fn, args):
+        """-> [(return value, St)]"""
+        self.paths = 0
+        out = []
+        for v, st in self.call_func(fn, list(args), {}, St(), 0):
+            out.append((v, st))
+            if len(out) > MAX_PATHS:
+                raise Unknown("too many paths")
+        return out
+
+
+def freeze(env):
+    return tuple(sorted(env.items(), key=lambda kv: kv[0]))
+
+
+# ----------------------------------------------------------------------------------------------------------
+# from the paths of a scenario to a behaviour, from the behaviours of all scenarios to a plan
+
+S_ATOM = Atom("S")
+O_ATOM = Atom("O")
+K_ATOM = Atom("K")
+SELF_P = Prox(S_ATOM, "self")
+O_PROX = Prox(O_ATOM, "other")
+K_PROX = Prox(K_ATOM, "extra")
+ROLE = {S_ATOM: "self", O_ATOM: "other", O_PROX: "other!", K_ATOM: "extra", K_PROX: "extra!", SELF_P: "self!"}
+
+
+def role(x):
+    if isinstance(x, tuple):
+        return tuple(role(y) for y in x)
+    if isinstance(x, V):
+        if x in ROLE:
+            return ROLE[x]
+        raise Definite("operates on %r" % (x,))
+    return ("const", repr(x))
+
+
+def norm_effect(e):
+    if e[0] in ("infix", "method", "method1", "builtin"):
+        return (e[0], e[1]) + tuple(role(a) for a in e[2:])
+    return (e[0],) + tuple(role(a) for a in e[1:])
+
+
+def reify_truth(paths):
+    """`True if v else False`, `if v: return True / return False`, `not not v` all return bool(v): a returned
+    undecided truth value becomes the result of the `bool` operation it tests, and two paths that only differ in
+    that test and return True / False accordingly are one path returning it."""
+    out = []
+    for ret, st in paths:
+        if isinstance(ret, CondV) and ret.key[0] == "truth" and isinstance(ret.key[1], OpRes):
+            if ret.neg:
+                raise Definite("returns the negated truth of a value")
+            ret = ret.key[1]
+        out.append((ret, st))
+    changed = True
+    while changed:
+        changed = False
+        for i, (r1, s1) in enumerate(out):
+            for j, (r2, s2) in enumerate(out):
+                if i >= j or s1.effects != s2.effects or not (isinstance(r1, bool) and isinstance(r2, bool)):
+                    continue
+                d1 = [c for c in s1.conds if c not in s2.conds]
+                d2 = [c for c in s2.conds if c not in s1.conds]
+                if len(d1) == 1 and len(d2) == 1 and d1[0][0] == d2[0][0] and d1[0][0][0] == "truth":
+                    if d1[0][1] == r1 and d2[0][1] == r2:
+                        key = d1[0][0]
+                        merged = (key[1], St(s1.effects, tuple(c for c in s1.conds if c[0] != key)))
+                        out = [x for k, x in enumerate(out) if k not in (i, j)] + [merged]
+                        changed = True
+                        break
+                    raise Definite("returns the negated truth of a value")
+            if changed:
+                break
+    return out
+
+
+def behaviour(paths):
+    """All paths of one scenario -> (first effect, fallback effect or None, prints, wrap)."""
+    if not paths:
+        raise Definite("no path returns")
+    paths = reify_truth(paths)
+    summaries = []
+    for ret, st in paths:
+        effs = [norm_effect(e) for e in st.effects]
+        prints = any(e[0] == "print" for e in effs)
+        effs = [(i, e) for i, e in enumerate(effs) if e[0] != "print"]
+        if not effs:
+            raise Definite("a path applies no operation to the wrapped value")
+        last_idx = effs[-1][0]
+        if isinstance(ret, OpRes) and ret.idx == last_idx:
+            wrap = False
+        elif isinstance(ret, Prox) and ret.origin == "new" and isinstance(ret.inner, OpRes) and ret.inner.idx == last_idx:
+            wrap = True
+        else:
+            raise Definite("a path returns %r, not (a proxy of) the operation's result" % (ret,))
+        first_idx = effs[0][0]
+        ni = None
+        for key, b in st.conds:
+            if key == ("isNI", OpRes(first_idx)):
+                ni = b
+        summaries.append((tuple(e for _, e in effs), prints, wrap, ni))
+    distinct = sorted(set(summaries), key=repr)
+    if len({(e, p, w) for e, p, w, _ in distinct}) == 1:
+        effs, prints, wrap, _ = distinct[0]
+        if len(effs) != 1:
+            raise Definite("%d operations in one call" % len(effs))
+        return effs[0], None, prints, wrap
+    # by-hand dispatch: E1; if result is NotImplemented: E2
+    plain = {(e, p, w) for e, p, w, ni in distinct if ni is False}
+    retry = {(e, p, w) for e, p, w, ni in distinct if ni is True}
+    rest = [x for x in distinct if x[3] is None]
+    if not rest and len(plain) == 1 and len(retry) == 1:
+        (e1, p1, w1), (e2, p2, w2) = next(iter(plain)), next(iter(retry))
+        if len(e1) == 1 and len(e2) == 2 and e2[0] == e1[0] and w1 == w2:
+            return e1[0], e2[1], (p1 or p2), w1
+    raise Definite("paths differ: %s" % " | ".join(sorted({repr(e) for e, _, _, _ in distinct}))[:300])
+
+
+def other_mark(eff):
+    """which form of the other operand the effect mentions: {'other'}, {'other!'}, both or none"""
+    out = set()
+
+    def walk(x):
+        if isinstance(x, tuple):
+            for y in x:
+                walk(y)
+        elif x in ("other", "other!"):
+            out.add(x)
+    walk(eff[1:])
+    return out
+
+
+def to_expr(eff, name, extras_given):
+    """normalised effect -> (Expr, facts)"""
+    kind = eff[0]
+    if kind == "infix":
+        _, op, a, b = eff
+        if {a, b} != {"self", "other"}:
+            raise Definite("operands of %s are %r, %r" % (op, a, b))
+        return ("infix", op, a, b), {}
+    if kind == "pow3":
+        _, a, b, m = eff
+        if {a, b} != {"self", "other"}:
+            raise Definite("operands of pow are %r, %r" % (a, b))
+        return ("infix", "pow", a, b), {"modulus": m}
+    if kind == "method":
+        _, d, a, b = eff
+        if {a, b} != {"self", "other"}:
+            raise Definite("operands of %s are %r, %r" % (d, a, b))
+        return ("method", d, a, b), {}
+    if kind in ("method1", "builtin"):
+        _, d, a, extra = eff
+        if a != "self":
+            raise Definite("%s applied to %r" % (d, a))
+        if tuple(extra) != tuple(extras_given):
+            raise Definite("further arguments %r passed on as %r" % (extras_given, extra))
+        return (kind, d), {}
+    if kind == "subscript":
+        _, a, b = eff
+        if (a, b) != ("self", "other"):
+            raise Definite("subscript %r[%r]" % (a, b))
+        return ("subscript",), {}
+    if kind == "isIn":
+        _, needle, cont = eff
+        if (needle, cont) != ("other", "self"):
+            raise Definite("%r in %r" % (needle, cont))
+        return ("isIn",), {}
+    if kind == "missingName":
+        return ("missingName",), {}
+    raise Definite("effect %r" % (eff,))
+
+
+def signature_of(node, binarylike):
+    """kind of the parameters after self (and other): None | 'required' | 'optional'"""
+    a = node.args
+    if a.kwonlyargs or a.kwarg or a.posonlyargs:
+        raise Unknown("signature")
+    names = [x.arg for x in a.args]
+    need = 2 if binarylike else 1
+    if len(names) < need:
+        raise Unknown("signature")
+    more = names[need:]
+    n_defaults = len(a.defaults)
+    if n_defaults > len(more):
+        raise Unknown("signature: default for an operand")
+    required = more[:len(more) - n_defaults]
+    optional = more[len(more) - n_defaults:]
+    if len(required) + len(optional) + (1 if a.vararg else 0) > 1:
+        raise Unknown("signature: several further parameters")
+    if required:
+        return "required"
+    if optional or a.vararg:
+        return "optional"
     return None
 
 
-def strip_doc(body):
-    if body and isinstance(body[0], ast.Expr) and isinstance(body[0].value, ast.Constant) and isinstance(body[0].value.value, str):
-        return body[1:]
-    return body
+def read_method(reader, fn, name):
+    """-> (Plan as a tuple (first, fallback, prints, wrap, unwrap_other), facts)"""
+    binarylike = name in BINARY_DUNDERS or name in ("__getitem__", "__contains__")
+    more = signature_of(fn.node, binarylike)
+    other_variants = [("plain", O_ATOM), ("proxy", O_PROX)] if binarylike else [(None, None)]
+    extra_variants = {None: [()], "required": [(K_ATOM,)], "optional": [(), (K_ATOM,)]}[more]
+    if name == "__pow__" and more is not None:
+        extra_variants = extra_variants + [(K_PROX,)]
+    result = None
+    unwrap = None
+    facts = {}
+    modulus_seen = []
+    for extras in extra_variants:
+        for oname, oval in other_variants:
+            args = [SELF_P] + ([oval] if binarylike else []) + list(extras)
+            eff, fb, prints, wrap = behaviour(reader.run(fn, args))
+            marks = other_mark(eff) | (other_mark(fb) if fb else set())
+            if oname == "plain" and "other!" in marks:
+                raise Definite("internal: proxy mark in the plain scenario")
+            if oname == "proxy":
+                if marks == {"other", "other!"}:
+                    raise Definite("the proxied other operand is used both wrapped and unwrapped")
+                u = marks == {"other"}
+                if unwrap is not None and unwrap != u and marks:
+                    raise Definite("the other operand is unwrapped in one scenario and not in another")
+                if marks:
+                    unwrap = u
+            given = tuple("extra" for _ in extras)
+            eff_s, fb_s = strip_mark_keep_extra(eff), (strip_mark_keep_extra(fb) if fb else None)
+            first, f1 = to_expr(eff_s, name, given)
+            fallback = to_expr(fb_s, name, given)[0] if fb_s else None
+            if extras and name == "__pow__":
+                modulus_seen.append((extras[0], f1.get("modulus")))
+            elif "modulus" in f1:
+                raise Definite("three-argument pow without a modulus parameter")
+            here = (first, fallback, prints, wrap)
+            if result is None:
+                result = here
+            elif result != here:
+                raise Definite("scenarios differ: %r vs %r" % (result, here))
+    if name == "__pow__":
+        if not modulus_seen:
+            facts["pow_mod"] = False
+        elif all(m == "extra" for _, m in modulus_seen):
+            facts["pow_mod"] = True
+        elif all(m is None for _, m in modulus_seen):
+            facts["pow_mod"] = False
+        else:
+            raise Definite("the modulus reaches pow as %r" % ([m for _, m in modulus_seen],))
+    if not binarylike:
+        unwrap = False
+    elif unwrap is None:
+        raise Definite("the other operand is never used")
+    return result + (unwrap,), facts
 
 
-def is_print(stmt):
-    return (isinstance(stmt, ast.Expr) and isinstance(stmt.value, ast.Call) and is_name(stmt.value.func, "print"))
+def strip_mark_keep_extra(eff):
+    """'other!' -> 'other' (the mark has been turned into unwrapOther); 'extra!' stays (an un-unwrapped modulus is a
+    different fact)"""
+    def go(x):
+        if isinstance(x, tuple):
+            return tuple(go(y) for y in x)
+        return "other" if x == "other!" else x
+    return go(eff)
 
 
-class State:
-    def __init__(self):
-        self.pow_forwards_modulo = False
+# ----------------------------------------------------------------------------------------------------------
+# flags
 
-
-def bin_expr(node, env, st, fn):
-    """An expression over the two unwrapped operands.  env: local name -> 'self' | 'other'."""
-    def arg(n):
-        if isinstance(n, ast.Name) and n.id in env:
-            return env[n.id]
-        raise Unknown("operand %s" % ast.dump(n)[:60])
-    if isinstance(node, ast.BinOp) and type(node.op) in AST_BINOP:
-        return "(.infix .%s .%s .%s)" % (AST_BINOP[type(node.op)], arg(node.left), arg(node.right))
-    if isinstance(node, ast.Call) and not node.keywords:
-        if is_name(node.func, "divmod") and len(node.args) == 2:
-            return "(.infix .divmod .%s .%s)" % (arg(node.args[0]), arg(node.args[1]))
-        if is_name(node.func, "pow") and len(node.args) >= 2:
-            extra = node.args[2:]
-            if extra:
-                vararg = fn.args.vararg.arg if fn.args.vararg else None
-                ok = (len(extra) == 1 and isinstance(extra[0], ast.Starred) and vararg is not None
-                      and any(isinstance(n, ast.Name) and n.id == vararg for n in ast.walk(extra[0])))
-                if not ok:
-                    raise Unknown("pow extra arguments")
-                st.pow_forwards_modulo = True
-            return "(.infix .pow .%s .%s)" % (arg(node.args[0]), arg(node.args[1]))
-        if isinstance(node.func, ast.Attribute) and node.func.attr in DUNDERS and len(node.args) == 1:
-            return "(.method .%s .%s .%s)" % (DUNDERS[node.func.attr], arg(node.func.value), arg(node.args[0]))
-    raise Unknown("expression %s" % ast.dump(node)[:80])
-
-
-def plan(first, fallback="none", prints=False, wrap=True, unwrap_other=True):
-    return ".plan ⟨%s, %s, %s, %s, %s⟩" % (first, fallback, str(prints).lower(), str(wrap).lower(),
-                                           str(unwrap_other).lower())
-
-
-def translate_binary(fn, st):
-    body = strip_doc(fn.body)
-    args = [a.arg for a in fn.args.args]
-    if len(args) != 2 or args[0] != "self":
-        raise Unknown("signature")
-    other = args[1]
-    # comparison shape: if isinstance(other, SandboxResult): return self.value OP other.value ; return self.value OP other
-    if (len(body) == 2 and isinstance(body[0], ast.If) and not body[0].orelse and len(body[0].body) == 1
-            and isinstance(body[0].body[0], ast.Return) and isinstance(body[1], ast.Return)):
-        t = body[0].test
-        if (isinstance(t, ast.Call) and is_name(t.func, "isinstance") and len(t.args) == 2 and is_name(t.args[0], other)
-                and is_name(t.args[1], "SandboxResult")):
-            a, b = body[0].body[0].value, body[1].value
-            if (isinstance(a, ast.Compare) and isinstance(b, ast.Compare) and len(a.ops) == 1 and len(b.ops) == 1
-                    and type(a.ops[0]) is type(b.ops[0]) and type(a.ops[0]) in AST_CMP
-                    and is_self_value(a.left) and is_self_value(b.left) and is_name(b.comparators[0], other)
-                    and isinstance(a.comparators[0], ast.Attribute) and a.comparators[0].attr == "value"
-                    and is_name(a.comparators[0].value, other)):
-                return plan("(.infix .%s .self .other)" % AST_CMP[type(a.ops[0])], wrap=False)
-        raise Unknown("if/return shape")
-    # left, right = _unwrap_value_pair(self, other)
-    if not body or not isinstance(body[0], ast.Assign):
-        raise Unknown("no unwrap")
-    a0 = body[0]
-    if not (len(a0.targets) == 1 and isinstance(a0.targets[0], ast.Tuple) and len(a0.targets[0].elts) == 2
-            and all(isinstance(e, ast.Name) for e in a0.targets[0].elts)
-            and isinstance(a0.value, ast.Call) and is_name(a0.value.func, "_unwrap_value_pair")
-            and len(a0.value.args) == 2 and is_name(a0.value.args[0], "self") and is_name(a0.value.args[1], other)):
-        raise Unknown("unwrap shape")
-    env = {a0.targets[0].elts[0].id: "self", a0.targets[0].elts[1].id: "other"}
-    rest = body[1:]
-    if len(rest) == 1 and isinstance(rest[0], ast.Return):
-        inner = clone_arg(rest[0].value)
-        if inner is not None:
-            return plan(bin_expr(inner, env, st, fn), wrap=True)
-        return plan(bin_expr(rest[0].value, env, st, fn), wrap=False)
-    # result = E1; [print]; if result == NotImplemented: result = E2; [print]; return clone(result)
-    prints = any(is_print(s) for s in rest)
-    rest = [s for s in rest if not is_print(s)]
-    if (len(rest) == 3 and isinstance(rest[0], ast.Assign) and len(rest[0].targets) == 1
-            and isinstance(rest[0].targets[0], ast.Name) and isinstance(rest[1], ast.If) and not rest[1].orelse
-            and isinstance(rest[2], ast.Return)):
-        res = rest[0].targets[0].id
-        t = rest[1].test
-        ok_test = (isinstance(t, ast.Compare) and len(t.ops) == 1 and isinstance(t.ops[0], (ast.Eq, ast.Is))
-                   and is_name(t.left, res) and is_name(t.comparators[0], "NotImplemented"))
-        ib = rest[1].body
-        ok_body = (len(ib) == 1 and isinstance(ib[0], ast.Assign) and len(ib[0].targets) == 1 and is_name(ib[0].targets[0], res))
-        ret = rest[2].value
-        inner = clone_arg(ret)
-        if ok_test and ok_body and ((inner is not None and is_name(inner, res)) or is_name(ret, res)):
-            return plan(bin_expr(rest[0].value, env, st, fn), "(some %s)" % bin_expr(ib[0].value, env, st, fn),
-                        prints=prints, wrap=inner is not None)
-    raise Unknown("body shape")
-
-
-def un_expr(node):
-    """An expression over self.value alone -> Lean Expr"""
-    if isinstance(node, ast.UnaryOp) and type(node.op) in AST_UNARY and is_self_value(node.operand):
-        return "(.builtin .%s)" % AST_UNARY[type(node.op)]
-    if isinstance(node, ast.Call) and not node.keywords and node.args and is_self_value(node.args[0]):
-        extra = node.args[1:]
-        if isinstance(node.func, ast.Name) and node.func.id in BUILTIN_CONV:
-            c = BUILTIN_CONV[node.func.id]
-            if not extra or (c in ("format", "round") and len(extra) == 1):
-                return "(.builtin .%s)" % c
-        if isinstance(node.func, ast.Attribute) and is_name(node.func.value, "math") and not extra:
-            if not hasattr(math, node.func.attr):
-                return ".missingName"
-            if node.func.attr in MATH_CONV:
-                return "(.builtin .%s)" % MATH_CONV[node.func.attr]
-    if (isinstance(node, ast.Call) and not node.keywords and isinstance(node.func, ast.Attribute)
-            and node.func.attr in DUNDERS and is_self_value(node.func.value)
-            and all(isinstance(a, ast.Starred) for a in node.args)):
-        return "(.method1 .%s)" % DUNDERS[node.func.attr]
-    raise Unknown("expression %s" % ast.dump(node)[:80])
-
-
-def translate_unary(fn):
-    body = strip_doc(fn.body)
-    if len(body) != 1 or not isinstance(body[0], ast.Return) or body[0].value is None:
-        raise Unknown("body shape")
-    inner = clone_arg(body[0].value)
-    if inner is not None:
-        return plan(un_expr(inner), wrap=True, unwrap_other=False)
-    return plan(un_expr(body[0].value), wrap=False, unwrap_other=False)
-
-
-def translate_getitem(fn):
-    body = strip_doc(fn.body)
-    args = [a.arg for a in fn.args.args]
-    if len(body) == 1 and isinstance(body[0], ast.Return) and len(args) == 2:
-        v = body[0].value
-        inner = clone_arg(v)
-        node = inner if inner is not None else v
-        if isinstance(node, ast.Subscript) and is_self_value(node.value) and is_name(node.slice, args[1]):
-            return plan(".subscript", wrap=inner is not None, unwrap_other=False)
-    raise Unknown("getitem shape")
-
-
-def translate_contains(fn):
-    body = strip_doc(fn.body)
-    args = [a.arg for a in fn.args.args]
-    if len(body) == 1 and isinstance(body[0], ast.Return) and len(args) == 2:
-        v = body[0].value
-        if isinstance(v, ast.Compare) and len(v.ops) == 1 and isinstance(v.ops[0], ast.In) and is_self_value(v.comparators[0]):
-            if is_name(v.left, args[1]):
-                return plan(".isIn", wrap=False, unwrap_other=False)
-            if (isinstance(v.left, ast.Call) and is_name(v.left.func, "unwrap_value") and len(v.left.args) == 1
-                    and is_name(v.left.args[0], args[1])):
-                return plan(".isIn", wrap=False, unwrap_other=True)
-        if (isinstance(v, ast.Call) and isinstance(v.func, ast.Attribute) and v.func.attr == "__contains__"
-                and is_self_value(v.func.value) and len(v.args) == 1 and is_name(v.args[0], args[1])):
-            return plan("(.method .contains .self .other)", wrap=False, unwrap_other=False)
-    raise Unknown("contains shape")
-
-
-BINARY_DUNDERS = [d for d in DUNDERS if DUNDERS[d] in (
-    "add radd sub rsub mul rmul matmul rmatmul truediv rtruediv floordiv rfloordiv mod rmod divmod rdivmod pow rpow "
-    "lshift rlshift rshift rrshift and_ rand xor rxor or_ ror lt le gt ge eq ne").split()]
-
-
-def spoofs_class(fn):
-    """`v = object.__getattribute__(self, "value")` ... `if name == "__class__": return v.__class__`"""
-    vname = None
-    for s in fn.body:
-        if (isinstance(s, ast.Assign) and len(s.targets) == 1 and isinstance(s.targets[0], ast.Name)
-                and isinstance(s.value, ast.Call) and isinstance(s.value.func, ast.Attribute)
-                and s.value.func.attr == "__getattribute__" and is_name(s.value.func.value, "object")
-                and len(s.value.args) == 2 and isinstance(s.value.args[1], ast.Constant) and s.value.args[1].value == "value"):
-            vname = s.targets[0].id
-    if vname is None:
+def read_spoof(reader):
+    fn = reader.methods.get("__getattribute__")
+    if fn is None:
         return False
-    attr = fn.args.args[1].arg
-    for node in ast.walk(fn):
-        if isinstance(node, ast.If):
-            t = node.test
-            if (isinstance(t, ast.Compare) and len(t.ops) == 1 and isinstance(t.ops[0], ast.Eq) and is_name(t.left, attr)
-                    and isinstance(t.comparators[0], ast.Constant) and t.comparators[0].value == "__class__"
-                    and len(node.body) == 1 and isinstance(node.body[0], ast.Return)):
-                r = node.body[0].value
-                if isinstance(r, ast.Attribute) and r.attr == "__class__" and is_name(r.value, vname):
-                    # must be the first test of the chain reached for that name
-                    return True
-    return False
+    paths = reader.run(fn, [SELF_P, "__class__"])
+    rets = {ret for ret, _ in paths}
+    for r in rets:
+        if isinstance(r, Opaque):
+            raise Unknown(r.why)
+    return rets == {ClassOf(S_ATOM)}
 
 
-def len_fn_delegates(tree):
-    for node in tree.body:
-        if isinstance(node, ast.FunctionDef) and node.name == "len":
-            last = node.body[-1]
-            if isinstance(last, ast.Return) and isinstance(last.value, ast.Call) and is_name(last.value.func, "_original_len"):
-                return True
+def read_len_fn(reader):
+    f = reader.genv.get("len")
+    if not isinstance(f, Func):
+        if f is None or f == Builtin("len"):
+            return True
+        raise Unknown("module-level len is %r" % (f,))
+    paths = reader.run(f, [S_ATOM])
+    for ret, st in paths:
+        if [norm_effect(e) for e in st.effects] != [("builtin", "len", "self", ())] or ret != OpRes(0):
             return False
-    return True       # no replacement len at all
+    return bool(paths)
 
 
-def translate():
+def combine_flag(what, read, measured, notes):
+    """reading: True / False / Unknown exception text; measured: True / False"""
+    if isinstance(read, str):
+        if measured:
+            notes.append("%s: probed (reading cannot follow: %s)" % (what, read))
+        return bool(measured)
+    if read != bool(measured):
+        notes.append("%s: reading says %s, measurement says %s" % (what, read, measured))
+        return False
+    return read
+
+
+# ----------------------------------------------------------------------------------------------------------
+# Lean text
+
+def lean_expr(e):
+    if e[0] in ("infix", "method"):
+        return "(.%s .%s .%s .%s)" % e
+    if e[0] in ("method1", "builtin"):
+        return "(.%s .%s)" % e
+    return "." + e[0]
+
+
+def lean_plan(p):
+    first, fallback, prints, wrap, unwrap = p
+    return ".plan ⟨%s, %s, %s, %s, %s⟩" % (lean_expr(first), "(some %s)" % lean_expr(fallback) if fallback else "none",
+                                           str(prints).lower(), str(wrap).lower(), str(unwrap).lower())
+
+
+def generate():
+    """-> (text of the generated file, info)"""
+    import proxy_probe as probe       # imports pedal of the tree under test
     path = os.path.join(REPO, "pedal", "sandbox", "result.py")
     with open(path, encoding="utf-8") as fh:
         src = fh.read()
     tree = ast.parse(src)
-    cls = next(n for n in tree.body if isinstance(n, ast.ClassDef) and n.name == "SandboxResult")
-    st = State()
-    entries, notes, ignored = [], [], []
-    spoof = False
-    for node in cls.body:
-        if not isinstance(node, ast.FunctionDef):
-            continue
-        if node.name == "__getattribute__":
-            spoof = spoofs_class(node)
-            continue
-        if node.name not in DUNDERS:
-            if node.name.startswith("__"):
-                ignored.append(node.name)
-            continue
+    sem = probe.measure_semantics()
+    reader = Reader(tree, sem)
+    if reader.cls is None:
+        raise RuntimeError("class SandboxResult not found")
+    entries, notes, probed, ignored = [], [], [], []
+    pow_mod = False
+    # every family dunder that the class binds (in the source, or - for names bound dynamically - on the real class)
+    names = [n for n in reader.defined if n in DUNDERS]
+    names += [n for n in DUNDERS if n not in names and probe.real_function(n) is not None]
+    ignored = [n for n in reader.defined if n.startswith("__") and n.endswith("__") and n not in DUNDERS
+               and n != "__getattribute__" and n in reader.methods]
+    for name in names:
+        plan, flags, why = None, {}, None
         try:
-            if node.name in BINARY_DUNDERS:
-                e = translate_binary(node, st)
-            elif node.name == "__getitem__":
-                e = translate_getitem(node)
-            elif node.name == "__contains__":
-                e = translate_contains(node)
-            else:
-                e = translate_unary(node)
+            if name not in reader.methods:
+                raise Unknown(reader.unread.get(name, "bound outside the class body"))
+            plan, flags = read_method(reader, reader.methods[name], name)
+        except Definite as d:
+            why = ("definite", str(d))
         except Unknown as u:
-            e = ".opaque"
-            notes.append("%s: %s" % (node.name, u))
-        entries.append((node.name, e))
+            why = ("unknown", str(u))
+        except RecursionError:
+            why = ("unknown", "recursion")
+        if plan is not None:
+            ok, diff = probe.matches(name, probe.Plan(*plan), flags)
+            if not ok:
+                notes.append("%s: read as %s but the real method behaves differently (%s)" % (name, lean_plan(plan), diff))
+                plan = None
+        elif why[0] == "definite":
+            notes.append("%s: not a forwarding plan: %s" % (name, why[1]))
+        else:
+            found = probe.classify(name)
+            if len(found) == 1:
+                p, flags = found[0]
+                plan = tuple(p)
+                probed.append("%s (reading cannot follow: %s)" % (name, why[1]))
+            else:
+                notes.append("%s: reading cannot follow (%s); the measurement fits %d plans" % (name, why[1], len(found)))
+        if plan is not None and name == "__pow__":
+            pow_mod = bool(flags.get("pow_mod"))
+        entries.append((name, lean_plan(plan) if plan is not None else ".opaque"))
+
+    try:
+        spoof_read = read_spoof(reader)
+    except (Unknown, Definite, RecursionError) as e:
+        spoof_read = str(e) or "recursion"
+    spoof = combine_flag("spoofsClass", spoof_read, sem["spoof"] is True, notes)
+    try:
+        len_read = read_len_fn(reader)
+    except (Unknown, Definite, RecursionError) as e:
+        len_read = str(e) or "recursion"
+    len_ok = combine_flag("lenFnDelegates", len_read, probe.measure_len_fn(), notes)
+
     lines = [
         "import PedalModel.Proxy",
         "/- GENERATED by harness/translate_proxy.py from pedal/sandbox/result.py of the tree under test. Do not edit. -/",
@@ -312,17 +1338,30 @@ def translate():
         "",
         "def proxyClass : ProxyClass :=",
         "  { plans := plans, spoofsClass := %s, powForwardsModulo := %s, lenFnDelegates := %s }" % (
-            str(spoof).lower(), str(st.pow_forwards_modulo).lower(), str(len_fn_delegates(tree)).lower()),
+            str(spoof).lower(), str(pow_mod).lower(), str(len_ok).lower()),
         "",
         "-- not part of the C16 families (not modelled): " + ", ".join(ignored),
     ]
-    lines += ["-- opaque: " + n for n in notes]
+    lines += ["-- opaque: " + n.replace("\n", " ") for n in notes]
+    lines += ["-- probed: " + n.replace("\n", " ") for n in probed]
     lines += ["", "end Pedal.Gen.Proxy", ""]
     out = "\n".join(lines)
-    changed = write_if_changed(os.path.join(LEAN_DIR, "PedalModel", "Gen", "ProxyPlans.lean"), out)
-    return {"file": "PedalModel/Gen/ProxyPlans.lean", "sha1": hashlib.sha1(out.encode()).hexdigest()[:12],
-            "changed": changed, "opaque": notes, "methods": len(entries)}
+    return out, {"file": "PedalModel/Gen/ProxyPlans.lean", "sha1": hashlib.sha1(out.encode()).hexdigest()[:12],
+                 "opaque": notes, "probed": probed, "methods": len(entries)}
+
+
+def translate():
+    out, info = generate()
+    info["changed"] = write_if_changed(os.path.join(LEAN_DIR, "PedalModel", "Gen", "ProxyPlans.lean"), out)
+    return info
 
 
 if __name__ == "__main__":
-    print(translate())
+    import json
+    import sys
+    if "--dry" in sys.argv:         # print what would be generated, write nothing
+        text, info = generate()
+        print(text)
+        print(json.dumps(info, indent=1))
+    else:
+        print(json.dumps(translate(), indent=1))
